@@ -340,6 +340,113 @@ Fixpoint wdom (n : nat) (o : wopts) (e : env) (s : schema) (v : pyval) {struct n
     end
   end.
 
+(** ** "validate accepts => the writer encodes", exactly.  [wneed n o e s v] lists what the writer needs BEYOND conformance,
+    for any writer options (default, strict, strict_allow_default); for data validate accepts it is necessary and sufficient
+    (proofs/AcceptIff.v):
+    (1) numbers under float/double convert: float(int) does not overflow; narrowing to binary32 does not overflow under "float";
+    (2) records: a strict / strict_allow_default writer finds no key that is not a field; a field that is absent needs
+        strict = false and either a default, or (strict_allow_default = false and) a type _accepts_null recognises;
+    (3) unions: the branch search answers (no foreign exception in any branch it tries, fuel n suffices) with an index i, and
+        the datum is writable under THAT branch -- C09 says which one it is. *)
+Definition field_wneed (D : schema -> pyval -> Prop) (o : wopts) (kv : list (pyval * pyval)) (fd : field) : Prop :=
+  let num t x :=
+    match t with
+    | SFloat | SDouble => dbl_ok x /\ forall b, to_double x = WOk b -> D t (PFloat b)
+    | _ => D t x
+    end in
+  match dict_get kv (fname fd) with
+  | Some x => num (ftype fd) x
+  | None =>
+      strict o = false /\
+      match fdefault fd with
+      | Some d => num (ftype fd) d
+      | None => strict_allow_default o = false /\ nullok (ftype fd) = true /\ D (ftype fd) PNone
+      end
+  end.
+
+Fixpoint wneed (n : nat) (o : wopts) (e : env) (s : schema) (v : pyval) {struct n} : Prop :=
+  match n with
+  | O => False
+  | S n =>
+    match s with
+    | SFloat => dbl_ok v /\ flt_ok v
+    | SDouble => dbl_ok v
+    | SArray it => forall l, seq_items v l -> Forall (wneed n o e it) l
+    | SMap vs => forall kv, v = PDict kv -> Forall (fun p => wneed n o e vs (snd p)) kv
+    | SRecord _ _ fs =>
+        forall kv, v = PDict kv ->
+          (strict o || strict_allow_default o = true -> has_extras kv fs = false) /\
+          Forall (field_wneed (wneed n o e) o kv) fs
+    | SUnion bs =>
+        let searched :=
+          exists i c, choose (fun c x => validate n o e c (Some x)) e v bs 0 (-1) (-1) false = Ok i /\
+                      nthZ bs i = Some c /\ wneed n o e c v in
+        match v with
+        | PTuple l =>
+            if disable_tuple o then searched
+            else forall name x b, l = [PStr name; x] -> first_named name bs = Some b -> wneed n o e b x
+        | _ => searched
+        end
+    | SRef nm => forall s', lookup e nm = Some s' -> wneed n o e s' v
+    | SAnnot _ s' => wneed n o e s' v
+    | _ => True
+    end
+  end.
+
+(** ** C09 closure: the side condition, as a boolean on (options, named schemas, schema, wire value).
+    [closb n o e s a] (n bounds the nesting and is the validator fuel of the re-resolution test):
+    - a value under a NAMED branch of a union (record / enum / fixed inline or by name): tuple notation is enabled and the
+      branch is the FIRST one answering to its name ([find_named]) -- i.e. the names of the union's named branches do not clash;
+    - a value under an UNNAMED branch comes back from the reader as a plain, normalised value: it must re-resolve to the
+      same branch under the writer's search (this is the exclusion the harness applies: bytearray written as "bytes" and
+      read back as bytes fits an earlier fixed; primitive ambiguities);
+    - "float" leaves survive the trip single -> double -> single; an enum index is the first occurrence of its symbol;
+      map keys and record field names are distinct. *)
+(* reader options: return_named_type=True *)
+Definition ro_named : ropts := {| ret_rec := false; ret_rec_override := false; ret_named := true; ret_named_override := false |}.
+Definition named_b (e : env) (b : schema) : bool :=
+  match branch_kind e b with Some (n, _) => bytes_eqb n (branch_name b) | None => false end.
+Definition optZ_eqb (x : option Z) (i : Z) : bool := match x with Some j => j =? i | None => false end.
+Definition resZ_eqb (x : res Z) (i : Z) : bool := match x with Ok j => j =? i | _ => false end.
+Fixpoint forall2b {A B} (p : A -> B -> bool) (l : list A) (r : list B) : bool :=
+  match l, r with
+  | [], [] => true
+  | x :: l, y :: r => p x y && forall2b p l r
+  | _, _ => false
+  end.
+
+Fixpoint closb (n : nat) (o : wopts) (e : env) (s : schema) (a : aval) {struct n} : bool :=
+  match n with
+  | O => false
+  | S n =>
+    match s, a with
+    | SFloat, AFloat x => match d2s (s2d x) with Ok y => y =? x | _ => false end
+    | SEnum _ _ syms _, AEnum i => match nthZ syms i with Some x => optZ_eqb (index_of syms x 0) i | None => false end
+    | SArray it, AArray l => forallb (closb n o e it) l
+    | SMap vs, AMap l => nodup_str (map fst l) && forallb (fun kx => closb n o e vs (snd kx)) l
+    | SRecord _ _ fs, ARecord l => nodup_str (field_names fs) && forall2b (fun fd x => closb n o e (ftype fd) x) fs l
+    | SUnion bs, AUnion i x =>
+        match nthZ bs i with
+        | None => false
+        | Some b =>
+            closb n o e b x &&
+            match branch_kind e b with
+            | Some _ => named_b e b && negb (disable_tuple o) && optZ_eqb (find_named (branch_name b) bs 0) i
+            | None =>
+                match py_of ro_named e b x with
+                | Some pv0 =>
+                    match pv0 with PTuple _ => false | _ => true end &&
+                    resZ_eqb (choose (fun c y => validate n o e c (Some y)) e pv0 bs 0 (-1) (-1) false) i
+                | None => false
+                end
+            end
+        end
+    | SRef nm, _ => match lookup e nm with Some s' => closb n o e s' a | None => false end
+    | SAnnot _ s', _ => closb n o e s' a
+    | _, _ => true
+    end
+  end.
+
 (** ** text glue for the correspondence protocol *)
 Local Open Scope string_scope.
 Definition FUEL2 : nat := 400.
@@ -365,7 +472,6 @@ Definition run_elab2 (wo : wopts) (e : env) (s : schema) (v : pyval) : string :=
 
 (* C09: elaboration (indices), bytes, side-condition flags, the value a reader with options [ro] returns, and the
    closure clause evaluated in the model: read with return_named_type=True, write back, same bytes? *)
-Definition ro_named : ropts := {| ret_rec := false; ret_rec_override := false; ret_named := true; ret_named_override := false |}.
 Definition run_c09 (wo : wopts) (ro : ropts) (e : env) (s : schema) (v : pyval) : string :=
   match elab FUEL2 wo e s v with
   | WOk a =>
@@ -378,6 +484,7 @@ Definition run_c09 (wo : wopts) (ro : ropts) (e : env) (s : schema) (v : pyval) 
                                  | WOk bs => if bytes_eqb bs (wire a) then "same" else "diff:" ++ tohex bs
                                  | WErr => "E" | WUnspec => "U" | WFuel => "FUEL" end
                     | None => "?" end)
+      ++ ";CB:" ++ (if closb FUEL2 wo e s a then "1" else "0")
   | WErr => "E" | WUnspec => "U" | WFuel => "FUEL"
   end.
 
